@@ -7,7 +7,7 @@ import Srctools.Gen.Frozen
 (JSON integers), text as arrays of code points.
 
   {"op":"norm"|"mod1","x":[bits…]}                         → {"r":[bits…]}
-  {"op":"fmt"|"fmtold"|"fmt6","x":[bits…]}                 → {"r":[[cp…]…]}
+  {"op":"fmt"|"fmt6","x":[bits…]}                         → {"r":[[cp…]…]}
   {"op":"parse","s":[[cp…]…]}                              → {"r":[bits|null…]}
   {"op":"pvs","s":[cp…]}                                   → {"r":[b,b,b]|null}
   {"op":"arith","f":"add|sub|mul|div|fmod|pymod","a":[…],"b":[…]} → {"r":[bits|null…]}
@@ -107,7 +107,6 @@ def handle (j : Json) : Except String Json := do
   | "norm" => pure (Json.mkObj [("r", Json.arr ((← bitsList (← j.getObjVal? "x")).map (outBits ∘ norm360)).toArray)])
   | "mod1" => pure (Json.mkObj [("r", Json.arr ((← bitsList (← j.getObjVal? "x")).map (outBits ∘ mod360)).toArray)])
   | "fmt" => pure (Json.mkObj [("r", Json.arr ((← bitsList (← j.getObjVal? "x")).map (Wire.codesOfStr ∘ formatFloat)).toArray)])
-  | "fmtold" => pure (Json.mkObj [("r", Json.arr ((← bitsList (← j.getObjVal? "x")).map (Wire.codesOfStr ∘ formatFloatOld)).toArray)])
   | "fmt6" => pure (Json.mkObj [("r", Json.arr ((← bitsList (← j.getObjVal? "x")).map (Wire.codesOfStr ∘ fmt6)).toArray)])
   | "parse" =>
     let ss ← (← (← j.getObjVal? "s").getArr?).toList.mapM Wire.strOfCodes
